@@ -1,15 +1,19 @@
 """C18 - socket streams deliver the byte stream intact, with back-pressure and EOF.
 
 1. TLC checks spec/SockProto.tla (StreamProtocol + SocketStream as a state machine, kernel and peer
-   as environment) exhaustively for several small configurations: every clause of the observer
-   P_Sock on every behaviour, plus the machine's own invariants and liveness under a fair kernel.
-2. Unit level: every transition TLC explored is emitted with a history leading to it and replayed on
-   the real StreamProtocol / SocketStream with a scripted transport on a stepping loop
-   (harness/c18_unit.py); the state reached is compared with the model (drift) and the recorded
-   property-level trace is judged by TLC (T_Sock).
+   as environment) and spec/SockRaw.tla (the raw-socket loops of UNIXSocketStream) exhaustively for
+   several small configurations: every clause of the observer P_Sock on every behaviour, plus the
+   machines' own invariants and liveness under a fair kernel.
+2. Unit level: every transition TLC explored in SockProto is emitted with a history leading to it and
+   replayed on the real StreamProtocol / SocketStream with a scripted transport on a stepping loop
+   (harness/c18_unit.py); the state reached is compared with the model.  A replay that agrees with
+   the model has produced the model's own event trace (already judged by TLC, invariant
+   PropertyHolds); traces of replays that leave the model (drift), traces on which the model shows
+   a known finding, and a sample of the agreeing ones are judged by TLC again (T_Sock).
 3. Real sockets: behaviours from `tlc -simulate` drive connected pairs of anyio streams over TCP
    loopback, UNIX sockets and from_socket() pairs, on asyncio and uvloop (harness/c18_real.py); the
    recorded traces are judged by T_Sock.
+Known findings: F10 (no back-pressure while nobody receives), F16 (UNIX stream not closed on uvloop).
 """
 
 from __future__ import annotations
@@ -24,7 +28,8 @@ from . import core, tlc
 from .replay import leaves, pmap
 
 PROP = "C18"
-KNOWN = "UnboundedBufferingWhileNotReceiving"
+KNOWN = "UnboundedBufferingWhileNotReceiving"          # F10
+KNOWN_F16 = "ClosedUnixStreamStaysOpenOnUvloop"         # F16
 INVARIANTS = ["TypeOK", "PropertyHolds", "GuardsExact", "QueueContiguous", "QueuedImpliesEvent",
               "WaitersCanBeWoken", "NeverWaitsOnceClosed", "ReadingOnlyInsideReceive", "BackPressure",
               "WriteGateShutWhileBuffered"]
@@ -57,7 +62,7 @@ EMIT = {
         ("rx-paused", consts(ops=((R,), (R, CL)), maxops=3, total=3, env=("data", "peof", "reset"), emit=True)),
         ("rx-unpaused-cancel", consts(ops=((R,), (CL,)), maxops=3, total=4, paused=False, burst=0,
                                       env=("data", "peof", "cancel"), emit=True)),
-        ("tx", consts(ops=((SN,), (SN, CL)), maxops=3, total=0, env=("drain", "reset", "cancel"), emit=True)),
+        ("tx", consts(ops=((SN,), (SN, CL)), maxops=3, total=0, env=("drain", "cancel"), emit=True)),
         ("duplex", consts(nt=3, ops=((R,), (SN,), (CL, EO)), maxops=3, total=2, sizes=(3,), mbs=(1,),
                           env=("data", "peof", "drain"), emit=True)),
     ],
@@ -109,18 +114,23 @@ RAW_INV = ["PropertyHolds", "GuardsExact", "WaitersCanBeWoken", "KernelBounded"]
 
 
 def rconsts(*, nt=2, ops=((), (), ()), maxops=3, total=2, mbs=(1, 2), sizes=(1, 3), kcap=2, kin=2,
-            env=("data", "peof", "drain", "reset", "cancel"), maxenv=1) -> dict:
+            env=("data", "peof", "drain", "reset", "cancel"), maxenv=1, defer=False) -> dict:
     o = list(ops) + [()] * (3 - len(ops))
     return {"NT": nt, "Ops1": S(o[0]), "Ops2": S(o[1]), "Ops3": S(o[2]), "MaxOps": maxops, "Total": total,
             "MaxBytesSet": S(mbs), "SendSizes": S(sizes), "KCap": kcap, "KIn": kin, "EnvKinds": S(env),
-            "MaxEnv": maxenv}
+            "MaxEnv": maxenv, "DeferClose": "TRUE" if defer else "FALSE"}
 
 
 RAW = {
-    "quick": [("raw", rconsts(ops=((R, SN), (R, CL)), maxops=3, env=("data", "peof", "drain", "reset")), "inv")],
+    "quick": [("raw", rconsts(ops=((R, SN), (R, CL)), maxops=3, env=("data", "peof", "drain")), "inv")],
     "thorough": [("raw", rconsts(nt=3, ops=((R, SN), (R, SN), (CL, EO)), maxops=3, total=3), "inv"),
                  ("raw-4ops", rconsts(ops=((R, SN), (R, SN, CL, EO)), maxops=4, total=3), "inv"),
-                 ("raw-live", rconsts(ops=((R, SN), (R, SN, CL)), maxops=3), "live")],
+                 ("raw-live", rconsts(ops=((R, SN), (R, SN, CL)), maxops=3), "live"),
+                 # uvloop's deferred close: every clause holds except the known finding F16 ...
+                 ("raw-defer", rconsts(nt=3, ops=((R,), (SN,), (CL, R, SN)), maxops=4, total=3, defer=True), "inv"),
+                 # ... and the model does reproduce F16 (strict form violated)
+                 ("raw-defer-strict", rconsts(nt=3, ops=((R,), (SN,), (CL, R, SN)), maxops=4, total=3, defer=True),
+                  "f11")],
 }
 
 
@@ -167,6 +177,12 @@ def _run_live(name: str, c: dict, workers: int):
 def _run_raw(name: str, c: dict, what: str):
     if what == "live":
         cfg = _cfg("raw-" + name, c, spec="FairSpec", view=None, properties=["Live"])
+    elif what == "f11":
+        cfg = _cfg("raw-" + name, c, spec="Spec", view=None, invariants=["PropertyHoldsStrict"])
+        r = tlc.run_tlc("SockRaw", cfg, workers=2, timeout=3000, tag="c18w")
+        if r.violated != "PropertyHoldsStrict":
+            raise tlc.TLCError(f"{name}: expected SockRaw to reproduce F16, got {r.violated}\n{r.output[-2000:]}")
+        return name, c, r, what
     else:
         cfg = _cfg("raw-" + name, c, spec="Spec", view=None, invariants=RAW_INV)
     r = tlc.run_tlc("SockRaw", cfg, workers=4, timeout=3000, tag="c18w")
@@ -220,6 +236,9 @@ def _judge(traces: list[dict], tag: str):
             uniq[k] = len(reps)
             reps.append({"id": len(reps), "events": tr["events"], "params": tr["params"]})
     verdicts = _validate(reps, tag)
+    for v in verdicts:
+        if v["bad"] == [KNOWN_F16]:
+            v["known_only"] = KNOWN_F16
     again = [i for i, v in enumerate(verdicts) if v["bad"] == [KNOWN]]
     if again:
         second = [{"id": i, "events": reps[i]["events"],
@@ -228,7 +247,7 @@ def _judge(traces: list[dict], tag: str):
             if v["bad"]:
                 verdicts[i] = dict(v, bad=sorted(set(v["bad"])), behind_known=True)
             else:
-                verdicts[i]["known_only"] = True
+                verdicts[i]["known_only"] = KNOWN
     out = []
     for tr in traces:
         out.append(dict(verdicts[uniq[_key(tr)]]))
@@ -243,7 +262,7 @@ def _tlc_phase(tier: str, seed: int, quick: bool, nsim: int) -> list:
     jobs = []
     with ThreadPoolExecutor(max_workers=12) as ex:
         for name, c in EMIT[tier]:
-            jobs.append(("emit", ex.submit(_run_emit, name, c, 4 if quick else 6)))
+            jobs.append(("emit", ex.submit(_run_emit, name, c, 3 if quick else 6)))
         for name, c in CHECK[tier]:
             jobs.append(("check", ex.submit(_run_check, name, c, 4)))
         jobs.append(("live", ex.submit(_run_live, *LIVE[tier], 4)))
@@ -268,7 +287,7 @@ def main(tier: str, seed: int) -> int:
     t0 = time.time()
 
     # ---- 1. TLC: exhaustive checks, emission, liveness, simulation -- all started together
-    nsim = 100 if quick else 1200
+    nsim = 70 if quick else 1200
     # development aid, off by default: TLC's output does not depend on the library, so it can be reused
     # across runs against patched trees (VERIF_C18_TLC_CACHE=<file>); never used by ./check itself
     import os
@@ -294,6 +313,9 @@ def main(tier: str, seed: int) -> int:
             rep.add_model(f"SockProto/{name}", r, properties=["Live (FairSpec)"], constants=c)
         elif kind == "raw":
             name, c, r, what = res
+            if what == "f11":
+                rep.extra["model_reproduces_F16"] = {"config": name, "violated": r.violated}
+                continue
             rep.add_model(f"SockRaw/{name}", r, constants=c,
                           **({"properties": ["Live (FairSpec)"]} if what == "live" else {"invariants": RAW_INV}))
         elif kind == "f10":
@@ -369,7 +391,7 @@ def main(tier: str, seed: int) -> int:
         if not v["bad"]:
             continue
         if v.get("known_only"):
-            rep.violation("known finding F10 (unit level)", src, signature=KNOWN)
+            rep.violation("known finding (unit level)", src, signature=v["known_only"])
             continue
         sig = _signature(v["bad"])
         nviol_unit += 1
@@ -425,7 +447,8 @@ def main(tier: str, seed: int) -> int:
         if not v["bad"]:
             continue
         if v.get("known_only"):
-            rep.violation("known finding F10 (real sockets)", {"mode": "real", "scn": scn}, signature=KNOWN)
+            rep.violation(f"known finding {v['known_only']} (real sockets, {k})", {"mode": "real", "scn": scn},
+                          signature=v["known_only"])
             continue
         if set(v["bad"]) & TIMING_CLAUSES:
             # a stuck call is decided by a deadline: confirm on a second run before reporting
